@@ -132,9 +132,11 @@ def doIter (t : Ty) (vn : B) (v : Val) (a : Nat) : String :=
     let hdr := (Ty.vec t).header H vn
     let (body, r) := encIter t items a hdr.length
     let all := hdr ++ body
+    -- interior padding of the items is uninitialised memory in the implementation: masked
+    let mask := trues (hdr.length + 8 + pad (hdr.length + 8) t.maxSizeOf) ++ Ty.memMaskList t items
     match r with
-    | .ok () => "iter ok " ++ toString all.length ++ " " ++ hexOf all
-    | .error (.lengthMismatch act exp) => "iter mismatch " ++ toString act ++ " " ++ toString exp ++ " " ++ hexOf all
+    | .ok () => "iter ok " ++ toString all.length ++ " " ++ maskedHex all mask
+    | .error (.lengthMismatch act exp) => "iter mismatch " ++ toString act ++ " " ++ toString exp ++ " " ++ maskedHex all mask
   | _ => "badval"
 
 /-- parse `k=..,m=..,int=..,ff=..` : (budget, flush fails) -/
